@@ -624,6 +624,12 @@ def run(ctx, out, tier):
     check_sametext(ctx, out)
     from rules.C10 import check_tagoffset
     check_tagoffset(ctx, out, rule="C03.tagoffset")
+    # tags are found at any offset: the scanner gives up only at the exact end of the text (shared with C12)
+    from rules.C12 import check_scanner_end
+    check_scanner_end(ctx, out, "C03.scan")
+    # the content byte range is empty only for a block opened and closed in one comment (shared with C04)
+    from rules.C04 import check_content_range
+    check_content_range(ctx, out, rule="C03.contentrange")
     return meta()
 
 
